@@ -150,6 +150,20 @@ finding("C04-stale-sort-after-aggregate", "C04", ["C01", "C03"],
  {"source": "from t1 | select {id, a} | sort {-id} | aggregate {m = min a} | join side:right r0 = (from t2 | select {c = id}) (m == c) | derive {r = (rank c)}", "arity": 3,
   "rows": [[I(1),I(1),I(1)],[N,I(2),I(1)]]})
 
+finding("C16-computed-sort-key-lowered-into-subpipeline", "C16", [],
+ "a sort with a computed key is in effect when a sub-pipeline or let-table is joined / appended; violation text `column id N used in table T transform 1 (Compute) is not defined before its use`",
+ "`from t1 | select {id, a} | sort {(a * -1)} | join r0 = (from t2 | select {id, c}) (true) | group {a} (aggregate {n = count this})`: the Compute of the sort key `a * -1` is placed into the table declared for the sub-pipeline (table 2), where it refers to a column id of the main pipeline: the RQ is not closed.",
+ None)
+finding("C16-subpipeline-sort-leaks-into-main", "C16", ["C03"],
+ "a join/append operand (sub-pipeline) or let-table that ends with a sort; violation text `column id N used as sort key in ... is defined in another pipeline or later`",
+ "`from t1 | select {id, x} | join r0 = (from t2 | select {id} | sort {(id * -1)}) (t1.id == r0.id) | derive {c2 = (sum x)}`: the window of c2 is sorted by the column id of the sub-pipeline's sort key, which the Join's table reference does not expose (and join should keep only the order of the left input).",
+ None)
+
+finding("C14-float-loses-fraction", "C14", [],
+ "a float literal whose value is integral (`3.0`, `-13.0`, `1e3`): formatted text re-parses to an Integer literal; reported as first differing path `...Literal.Float`",
+ "Literal::Float is printed with `{}`: `derive {c = 3.0}` is formatted as `derive {c = 3}`, which parses to Integer(3): `prqlc fmt` changes the literal's kind (and e.g. `1 / 2.0` style arithmetic on integer-dividing targets). The behaviour is recorded in the fmt snapshots of the integration queries (arithmetic.prql: `x_float = 13.0` -> `x_float = 13`), so it is recorded here rather than repaired.",
+ None)
+
 k = json.load(open(os.path.join(V, "known_findings.json")))
 keep = [f for f in k["findings"] if f["id"] not in {x["id"] for x in FINDINGS}]
 k["findings"] = keep + FINDINGS
